@@ -282,6 +282,9 @@ def run(ctx):
     # time types vs X.690 11.7 / 11.8 / 8.26 worked out in harness/timefam.py
     from .. import timefam as _timefam
     _timefam.run(ctx, 'C03', ctx.rng, ctx.n(40, 500), ['der'])
+    # one named type under one component name in several contexts vs the independent encoder
+    from .. import ctxfam as _ctxfam
+    _ctxfam.run(ctx, 'C03', ctx.rng, ctx.n(150, 2000), impl, ['der'])
 
 
 def sorted_members_differs(t, v, got, want):
